@@ -420,8 +420,45 @@ func c18Concurrent(k c18Kind, prefill []float64, x float64) *mc.Scenario {
 	}
 }
 
+// c18TwoAdds: two samples added at the same time (and a reader): the instance must end up as if they
+// had been added one after the other, in one of the two orders (twins for both).
+func c18TwoAdds(k c18Kind, prefill []float64, x, y float64) *mc.Scenario {
+	return &mc.Scenario{
+		Name:   "C18/concurrent-adds/" + k.name,
+		Params: fmt.Sprintf("prefill=%v Add(%v) || Add(%v) || Get", prefill, x, y),
+		Body: func(xx *mc.Exec) {
+			a, xy, yx := k.mk(), k.mk(), k.mk()
+			for _, v := range prefill {
+				a.Add(v)
+				xy.Add(v)
+				yx.Add(v)
+			}
+			xy.Add(x)
+			xy.Add(y)
+			yx.Add(y)
+			yx.Add(x)
+			ths := []*vrt.Thread{
+				vrt.GoL("add-x", func() { a.Add(x) }),
+				vrt.GoL("add-y", func() { a.Add(y) }),
+				vrt.GoL("get", func() { a.Get() }),
+			}
+			vrt.Join(ths...)
+			xx.MarkConflict()
+			got, w1, w2 := a.Get(), xy.Get(), yx.Get()
+			xx.Observe("get=%v", got)
+			same := func(p, q float64) bool { return p == q || (math.IsNaN(p) && math.IsNaN(q)) }
+			if !same(got, w1) && !same(got, w2) {
+				xx.Fail("concurrent/adds-not-serializable", "%s after %v: Add(%v) racing Add(%v) left Get()=%v; one after the other they give %v or %v", k.name, prefill, x, y, got, w1, w2)
+			}
+		},
+	}
+}
+
 func runC18(c *Ctx) {
 	for _, k := range c18Kinds() {
+		for _, pre := range [][]float64{nil, {5, 2, 9, 2}} {
+			c.Explore(c18TwoAdds(k, pre, 1, 7), mc.Options{PreemptBound: c.Pick(2, 3), NoCache: true})
+		}
 		if k.fold != "min" && k.fold != "last" && !strings.HasPrefix(k.name, "ExponentialAverage") {
 			continue
 		}
